@@ -135,6 +135,32 @@ def run(prop, R, seed):
             print("SENSITIVITY-MISS: property=%s variant=%s %s" % (prop, label, detail[:300]))
         elif status in ("skipped", "nocompile"):
             print("SENSITIVITY-STALE: property=%s variant=%s %s (the variant no longer applies to this tree; it says nothing about the check)" % (prop, label, detail[:200]))
+    # the other direction: behaviour-preserving refactorings must leave this property's check silent
+    ctl_dir = os.path.join(MUTANTS, "controls")
+    ctl = []
+    if os.path.isdir(ctl_dir) and os.environ.get("TCVERIF_CONTROLS", "1") != "0":
+        for f in sorted(os.listdir(ctl_dir)):
+            if not f.endswith(".patch"):
+                continue
+            status, detail, viol = check_patch(prop, os.path.join(ctl_dir, f))
+            from tc.report import load_known
+            kn = {e["key"] for e in load_known() if e.get("status") == "known" and e.get("property") == prop}
+            fired = sorted({v["key"] for v in viol if v["key"] not in kn}) if status != "skipped" else []
+            if status in ("skipped", "nocompile"):
+                ctl.append({"control": f, "status": "stale"})
+                print("SENSITIVITY-STALE: property=%s control=%s (no longer applies to this tree)" % (prop, f))
+            elif fired:
+                ctl.append({"control": f, "status": "false-alarm", "keys": fired[:5]})
+                print("SENSITIVITY-FALSE-ALARM: property=%s control=%s fired %s" % (prop, f, fired[:3]))
+            else:
+                ctl.append({"control": f, "status": "silent"})
+    R.extra["controls"] = {
+        "n": len(ctl),
+        "silent": len([c for c in ctl if c["status"] == "silent"]),
+        "false_alarms": [c for c in ctl if c["status"] == "false-alarm"],
+        "stale": [c["control"] for c in ctl if c["status"] == "stale"],
+        "note": "each control is a behaviour-preserving refactoring applied to a scratch copy; this property's rules must report nothing new on it",
+    }
     R.extra["sensitivity"] = {
         "variants": len(res),
         "detected": len([r for r in res if r["status"] == "detected"]),
